@@ -317,7 +317,15 @@ struct ScaledUnit : Unit {
                   "Can only scale by a Magnitude<...> type");
     using Dim = detail::DimT<Unit>;
     using Mag = MagProductT<detail::MagT<Unit>, ScaleFactor>;
+
+    // Hide any `label` inherited from `Unit`: it describes a unit of a different magnitude.  (The
+    // label of a `ScaledUnit` itself comes from the `UnitLabel` specialization below; but a new named
+    // unit which _derives_ from a `ScaledUnit`, without giving itself a label, would otherwise print
+    // the label of `Unit`.)
+    static constexpr const char label[] = "[UNLABELED UNIT]";
 };
+template <typename Unit, typename ScaleFactor>
+constexpr const char ScaledUnit<Unit, ScaleFactor>::label[];
 
 // Type template to hold the product of powers of Units.
 template <typename... UnitPows>
